@@ -204,3 +204,84 @@ package container
 //@   requires s != nil
 //@   nomod
 //@   ensures result == len(s.outAdj)
+
+// ---- CSR builder: Build establishes the representation invariant the lookups rely on ---------------------------
+//
+// cbWF: every dense index handed out so far is below the number of registered nodes. ensureNode, AddNode and AddEdge
+// keep it; Build turns it, with the prefix sums it computes itself, into csrWF of the graph it returns (the offset
+// tables have one entry more than there are nodes, are non-decreasing and end at the length of the adjacency arrays).
+// What Build writes INTO the adjacency arrays (that every set member lands in the window of its node) is not claimed
+// here: the fill loops drive closures over the per-node sets and are covered by the bounded stand-in.
+//@ pure func cbWF(s *CSRDigraphBuilder) bool {
+//@   s.idToDenseIdx != nil && s.outTmp != nil && s.inTmp != nil
+//@   && (forall k uint64 :: k in s.idToDenseIdx ==> s.idToDenseIdx[k] < len(s.denseIdxToID))
+//@ }
+//@ func (s *CSRDigraphBuilder) ensureNode(id uint64) uint64
+//@   requires s != nil && cbWF(s)
+//@   nosafety
+//@   modifies s.denseIdxToID, contents(s.denseIdxToID), contents(s.idToDenseIdx), contents(s.outTmp), contents(s.inTmp), all(ghost:set.V)
+//@   ensures wf: cbWF(s)
+//@   ensures index: result < len(s.denseIdxToID) && id in s.idToDenseIdx && s.idToDenseIdx[id] == result
+//@   ensures grows: len(s.denseIdxToID) >= old(len(s.denseIdxToID))
+//@   ensures own: s.denseIdxToID.arr == old(s.denseIdxToID.arr) || fresh(s.denseIdxToID.arr)
+//@ func (s *CSRDigraphBuilder) AddNode(node uint64)
+//@   requires s != nil && cbWF(s)
+//@   nosafety
+//@   modifies s.denseIdxToID, contents(s.denseIdxToID), contents(s.idToDenseIdx), contents(s.outTmp), contents(s.inTmp), all(ghost:set.V)
+//@   ensures wf: cbWF(s)
+//@ func (s *CSRDigraphBuilder) AddEdge(start uint64, end uint64)
+//@   requires s != nil && cbWF(s)
+//@   nosafety
+//@   modifies s.denseIdxToID, contents(s.denseIdxToID), contents(s.idToDenseIdx), contents(s.outTmp), contents(s.inTmp), all(ghost:set.V)
+//@   ensures wf: cbWF(s)
+//@ func (s *CSRDigraphBuilder) Build() DirectedGraph
+//@   requires s != nil && cbWF(s)
+//@   nosafety
+//@   ensures graph: typeof(result) == *csrDigraph && result.(*csrDigraph) != nil && fresh(result.(*csrDigraph))
+//@   ensures wf: csrWF(result.(*csrDigraph))
+//@   loop 0
+//@     invariant bounds: 0 <= nextNode && nextNode <= numNodes && numNodes == len(s.denseIdxToID)
+//@     invariant tables: len(outOffsets) == numNodes + 1 && len(inOffsets) == numNodes + 1 && fresh(outOffsets.arr) && fresh(inOffsets.arr) && outOffsets.arr != inOffsets.arr
+//@     invariant sums: outOffsets[nextNode] == outTotal && inOffsets[nextNode] == inTotal && outTotal >= 0 && inTotal >= 0
+//@     invariant monoOut: forall i int :: {:pattern outOffsets[i]} 0 <= i && i < nextNode ==> outOffsets[i] <= outOffsets[i + 1]
+//@     invariant monoIn: forall i int :: {:pattern inOffsets[i]} 0 <= i && i < nextNode ==> inOffsets[i] <= inOffsets[i + 1]
+//@     invariant cappedOut: forall i int :: {:pattern outOffsets[i]} 0 <= i && i <= nextNode ==> outOffsets[i] <= outTotal
+//@     invariant cappedIn: forall i int :: {:pattern inOffsets[i]} 0 <= i && i <= nextNode ==> inOffsets[i] <= inTotal
+//@     invariant ids: forall k uint64 :: k in s.idToDenseIdx ==> s.idToDenseIdx[k] < len(s.denseIdxToID)
+//@   loop 1
+//@     invariant tables: numNodes == len(s.denseIdxToID) && len(outOffsets) == numNodes + 1 && len(inOffsets) == numNodes + 1 && len(outAdj) == outTotal && len(inAdj) == inTotal
+//@     invariant apart: fresh(outOffsets.arr) && fresh(inOffsets.arr) && fresh(outAdj.arr) && fresh(inAdj.arr) && outOffsets.arr != inOffsets.arr && outAdj.arr != outOffsets.arr && outAdj.arr != inOffsets.arr && inAdj.arr != outOffsets.arr && inAdj.arr != inOffsets.arr && (outAdj.arr != inAdj.arr || outTotal == 0 || inTotal == 0)
+//@     invariant monoOut: forall i int :: {:pattern outOffsets[i]} 0 <= i && i < numNodes ==> outOffsets[i] <= outOffsets[i + 1]
+//@     invariant monoIn: forall i int :: {:pattern inOffsets[i]} 0 <= i && i < numNodes ==> inOffsets[i] <= inOffsets[i + 1]
+//@     invariant cappedOut: forall i int :: {:pattern outOffsets[i]} 0 <= i && i <= numNodes ==> outOffsets[i] <= outTotal
+//@     invariant cappedIn: forall i int :: {:pattern inOffsets[i]} 0 <= i && i <= numNodes ==> inOffsets[i] <= inTotal
+//@     invariant ids: forall k uint64 :: k in s.idToDenseIdx ==> s.idToDenseIdx[k] < len(s.denseIdxToID)
+//@ func NewCSRDigraphBuilder() DigraphBuilder
+//@   nomod
+//@   ensures typeof(result) == *CSRDigraphBuilder && result.(*CSRDigraphBuilder) != nil && fresh(result.(*CSRDigraphBuilder))
+//@   ensures wf: cbWF(result.(*CSRDigraphBuilder)) && len(result.(*CSRDigraphBuilder).denseIdxToID) == 0
+// Normalize: the graph it returns has the same offset tables (copied) over identity ids, so the invariant carries over.
+//@ func (s *csrDigraph) Normalize() ([]uint64, DirectedGraph)
+//@   requires s != nil && csrWF(s)
+//@   nosafety
+//@   nomod
+//@   ensures graph: typeof(result.1) == *csrDigraph && result.1.(*csrDigraph) != nil && fresh(result.1.(*csrDigraph))
+//@   ensures wf: csrWF(result.1.(*csrDigraph))
+//@   ensures reverse: len(result.0) == len(s.denseIdxToID)
+//@   loop 0
+//@     invariant range: -1 <= rangeindex && rangeindex < len(s.denseIdxToID)
+//@     invariant shape: newGraph != nil && fresh(newGraph) && newGraph.idToDenseIdx != nil && len(newGraph.denseIdxToID) == len(s.denseIdxToID) && len(newGraph.outOffsets) == len(s.outOffsets) && len(newGraph.inOffsets) == len(s.inOffsets) && len(newGraph.outAdj) == len(s.outAdj) && len(newGraph.inAdj) == len(s.inAdj)
+//@     invariant apart: fresh(newGraph.denseIdxToID.arr) && fresh(newGraph.outOffsets.arr) && fresh(newGraph.inOffsets.arr) && fresh(newGraph.outAdj.arr) && fresh(newGraph.inAdj.arr) && newGraph.outOffsets.arr != newGraph.inOffsets.arr && newGraph.outOffsets.arr != newGraph.denseIdxToID.arr && newGraph.inOffsets.arr != newGraph.denseIdxToID.arr && (newGraph.outAdj.arr != newGraph.outOffsets.arr || len(s.outAdj) == 0) && (newGraph.outAdj.arr != newGraph.inOffsets.arr || len(s.outAdj) == 0) && (newGraph.inAdj.arr != newGraph.outOffsets.arr || len(s.inAdj) == 0) && (newGraph.inAdj.arr != newGraph.inOffsets.arr || len(s.inAdj) == 0)
+//@     invariant ids: forall k uint64 :: k in newGraph.idToDenseIdx ==> newGraph.idToDenseIdx[k] < len(s.denseIdxToID)
+//@   loop 1
+//@     invariant range: -1 <= rangeindex
+//@     invariant shape: newGraph != nil && fresh(newGraph) && newGraph.idToDenseIdx != nil && len(newGraph.denseIdxToID) == len(s.denseIdxToID) && len(newGraph.outOffsets) == len(s.outOffsets) && len(newGraph.inOffsets) == len(s.inOffsets) && len(newGraph.outAdj) == len(s.outAdj) && len(newGraph.inAdj) == len(s.inAdj)
+//@     invariant apart: fresh(newGraph.denseIdxToID.arr) && fresh(newGraph.outOffsets.arr) && fresh(newGraph.inOffsets.arr) && fresh(newGraph.outAdj.arr) && fresh(newGraph.inAdj.arr) && newGraph.outOffsets.arr != newGraph.inOffsets.arr && newGraph.outOffsets.arr != newGraph.denseIdxToID.arr && newGraph.inOffsets.arr != newGraph.denseIdxToID.arr && (newGraph.outAdj.arr != newGraph.outOffsets.arr || len(s.outAdj) == 0) && (newGraph.outAdj.arr != newGraph.inOffsets.arr || len(s.outAdj) == 0) && (newGraph.inAdj.arr != newGraph.outOffsets.arr || len(s.inAdj) == 0) && (newGraph.inAdj.arr != newGraph.inOffsets.arr || len(s.inAdj) == 0)
+//@     invariant ids: forall k uint64 :: k in newGraph.idToDenseIdx ==> newGraph.idToDenseIdx[k] < len(s.denseIdxToID)
+//@     invariant offsets: (forall i int :: {:pattern newGraph.outOffsets[i]} 0 <= i && i < len(s.outOffsets) ==> newGraph.outOffsets[i] == s.outOffsets[i]) && (forall i int :: {:pattern newGraph.inOffsets[i]} 0 <= i && i < len(s.inOffsets) ==> newGraph.inOffsets[i] == s.inOffsets[i])
+//@   loop 2
+//@     invariant range: -1 <= rangeindex
+//@     invariant shape: newGraph != nil && fresh(newGraph) && newGraph.idToDenseIdx != nil && len(newGraph.denseIdxToID) == len(s.denseIdxToID) && len(newGraph.outOffsets) == len(s.outOffsets) && len(newGraph.inOffsets) == len(s.inOffsets) && len(newGraph.outAdj) == len(s.outAdj) && len(newGraph.inAdj) == len(s.inAdj)
+//@     invariant apart: fresh(newGraph.denseIdxToID.arr) && fresh(newGraph.outOffsets.arr) && fresh(newGraph.inOffsets.arr) && fresh(newGraph.outAdj.arr) && fresh(newGraph.inAdj.arr) && newGraph.outOffsets.arr != newGraph.inOffsets.arr && newGraph.outOffsets.arr != newGraph.denseIdxToID.arr && newGraph.inOffsets.arr != newGraph.denseIdxToID.arr && (newGraph.outAdj.arr != newGraph.outOffsets.arr || len(s.outAdj) == 0) && (newGraph.outAdj.arr != newGraph.inOffsets.arr || len(s.outAdj) == 0) && (newGraph.inAdj.arr != newGraph.outOffsets.arr || len(s.inAdj) == 0) && (newGraph.inAdj.arr != newGraph.inOffsets.arr || len(s.inAdj) == 0)
+//@     invariant ids: forall k uint64 :: k in newGraph.idToDenseIdx ==> newGraph.idToDenseIdx[k] < len(s.denseIdxToID)
+//@     invariant offsets: (forall i int :: {:pattern newGraph.outOffsets[i]} 0 <= i && i < len(s.outOffsets) ==> newGraph.outOffsets[i] == s.outOffsets[i]) && (forall i int :: {:pattern newGraph.inOffsets[i]} 0 <= i && i < len(s.inOffsets) ==> newGraph.inOffsets[i] == s.inOffsets[i])
